@@ -75,6 +75,7 @@ EstRows ==
   RD("Confirm_Flood", ES, "any", 1, 1181, "Dev_ConfirmCacheSelfDeadlock", "stuck"),
   R("GetConfirms_Unknown", ES, "keep"), R("GetConfirms_MaxByHeight", ES, "keep"),
   R("Confirms_Unknown", ES, "any"), RS("Confirms_HugePack", ES, "any", 1309, 1309),
+  R("DiscRes_HugeSizeHeader", ES, "close"),   \* RLP size headers announcing 2 GiB / 1 GiB inside a 40-byte payload
   R("DiscReq_SeqMax", ES, "keep"), R("DiscRes_Invalid", ES, "any"), RS("DiscRes_Many", ES, "any", 291, 291) }
 
 ClassTable == PreRows \cup FrameRows \cup ProtoRows \cup EstRows
